@@ -222,11 +222,24 @@ func (w *walker) value(it *simdjson.Iter) (*ref.Node, error) {
 		if err != nil {
 			return nil, fmt.Errorf("Int(): %w", err)
 		}
+		// the float views of an integer: same number, no flags
+		if f, ferr := it.Float(); ferr != nil || f != float64(v) {
+			return nil, fmt.Errorf("Float() of the integer %d = %v (%v)", v, f, ferr)
+		}
+		if f, fl, ferr := it.FloatFlags(); ferr != nil || f != float64(v) || fl != 0 {
+			return nil, fmt.Errorf("FloatFlags() of the integer %d = %v, flags %x (%v)", v, f, uint64(fl), ferr)
+		}
 		return ref.Int(v), nil
 	case simdjson.TypeUint:
 		v, err := it.Uint()
 		if err != nil {
 			return nil, fmt.Errorf("Uint(): %w", err)
+		}
+		if f, ferr := it.Float(); ferr != nil || f != float64(v) {
+			return nil, fmt.Errorf("Float() of the unsigned integer %d = %v (%v)", v, f, ferr)
+		}
+		if f, fl, ferr := it.FloatFlags(); ferr != nil || f != float64(v) || fl != 0 {
+			return nil, fmt.Errorf("FloatFlags() of the unsigned integer %d = %v, flags %x (%v)", v, f, uint64(fl), ferr)
 		}
 		return ref.Uint(v), nil
 	case simdjson.TypeFloat:
